@@ -355,7 +355,7 @@ def _load_atoms(t, p):
             d = c.expr if isinstance(c.expr, ast.Call) else \
                 t.en.defs[c.expr.id]
             if isinstance(d, ast.Call):
-                g = t.prog.callee_of(t.roles.load_rules, d)
+                g = t.prog.callee_of(t.roles.load_body, d)
                 if g is t.roles.loader:
                     changed = c.pol if changed is None else (changed
                                                              or c.pol)
